@@ -5,6 +5,7 @@ import OmplModel.Proofs.SpaceInterpWeights
 import OmplModel.Proofs.SpaceInterpAlias
 import OmplModel.Proofs.SpaceInterpFix61
 import OmplModel.Proofs.SpaceInterpTree
+import OmplModel.Props.C07Car
 /-!
 C07 — property theorems for `StateSpace::interpolate` (model: `Model/SpaceInterp.lean`).
 
@@ -817,6 +818,22 @@ theorem interp_alias_safe :
 example : OmplModel.Generated.RwSets.bodies.length ≥ 7 := by decide
 example : Alias.safe [.rd .to 1, .rd .from 1, .wr 1, .rd .out 1, .rd .from 1, .wr 1] = false := by decide
 example : Alias.modesAgree [.rd .to 1, .rd .from 1, .wr 1, .rd .out 1, .rd .from 1, .wr 1] = false := by decide
+
+/-- [AF, generated] car-like spaces (round 10): the worker behind every Dubins / Reeds-Shepp / Owen / Vana / VanaOwen interpolation,
+`interpolate(from, path, t, state[, radius])`, extracted in textual order with its scratch state dropped
+(`extract/rwsets.py`, `CAR_BODIES`): it never reads the output state before writing it and reads no field of `from`
+after writing the same field of the output — so (by `alias_safe_sound`) it writes the same values whether `state` is a
+distinct object, `from`, or `to`.  The seeded change C07-s7 (integrate in `state` instead of the scratch state) extracts as
+`W(X) W(Y) r(from.Yaw) … r(from.X) …` and refutes this theorem (the build fails = broken obligation), besides the
+concrete failing inputs the oracle's alias clause finds. -/
+theorem car_path_overload_alias_safe :
+    (OmplModel.Generated.RwSets.dubinsPathOverload ++ OmplModel.Generated.RwSets.reedsSheppPathOverload).all
+      (fun b => Alias.safe b && Alias.modesAgree b) = true := by
+  decide
+
+/-- non-vacuity: both bodies were extracted and do write the pose; the head of what C07-s7 extracts as is rejected -/
+example : OmplModel.Generated.RwSets.dubinsPathOverload.length = 1 ∧ OmplModel.Generated.RwSets.reedsSheppPathOverload.length = 1 := by decide
+example : Alias.safe [.wr 9, .wr 10, .rd .from 11, .wr 11, .rd .out 9, .rd .from 9, .rd .out 10, .rd .from 10, .wr 9, .wr 10] = false := by decide
 
 /-- [AF] soundness of the syntactic check, for EVERY body (not only the generated table): a `safe`
 access sequence writes the same values whether the output is a distinct object, `from`, or `to`.
